@@ -118,6 +118,21 @@ func (fr *frame) srcText(pos token.Pos) string {
 
 // splitAnd splits a top-level (and a b c) term into its conjuncts.
 func splitAnd(t string) []string {
+	if strings.HasPrefix(t, "(=> ") {
+		// (=> A (and b c)) splits into (=> A b), (=> A c)
+		args := sexpArgs(t[4 : len(t)-1])
+		if len(args) == 2 {
+			parts := splitAnd(args[1])
+			if len(parts) > 1 {
+				var out []string
+				for _, p := range parts {
+					out = append(out, "(=> "+args[0]+" "+p+")")
+				}
+				return out
+			}
+		}
+		return []string{t}
+	}
 	if !strings.HasPrefix(t, "(and ") {
 		return []string{t}
 	}
@@ -147,6 +162,31 @@ func splitAnd(t string) []string {
 		out = append(out, splitAnd(p)...)
 	}
 	return out
+}
+
+// sexpArgs splits the body of an s-expression application into its top-level arguments.
+func sexpArgs(body string) []string {
+	var parts []string
+	depth, start := 0, 0
+	for i := 0; i < len(body); i++ {
+		switch body[i] {
+		case '(':
+			depth++
+		case ')':
+			depth--
+		case ' ':
+			if depth == 0 {
+				if i > start {
+					parts = append(parts, body[start:i])
+				}
+				start = i + 1
+			}
+		}
+	}
+	if start < len(body) {
+		parts = append(parts, body[start:])
+	}
+	return parts
 }
 
 // oblige records an obligation at the current point; a conjunction is split into one obligation per conjunct.
@@ -307,6 +347,14 @@ func (fr *frame) wellFormed(t types.Type, x string, s *state) {
 	case *types.Pointer, *types.Map:
 		top := e.get(s, "heapTop")
 		e.assume(app("<", x, top))
+		if pt, ok := u.(*types.Pointer); ok {
+			// the object a pointer parameter/result points to holds values of its field types
+			if _, isStruct := pt.Elem().Underlying().(*types.Struct); isStruct && !isTime(pt.Elem()) {
+				if ra := e.st.rangeAssume(pt.Elem(), app("select", e.get(s, e.memRegion(pt.Elem())), x), 0); ra != "" {
+					e.assume(implies(not(eq(x, "0")), ra))
+				}
+			}
+		}
 	case *types.Struct:
 		si := e.st.structOf(t)
 		for i := 0; i < u.NumFields(); i++ {
